@@ -14,9 +14,12 @@ from pytoniq_core.tlb import utils as Ut
 
 PROP = 'C16'
 TRACE_MODULE = 'C16Trace.tla'
-RULE = ('for every covered block.tlb type: the base value and one-factor-at-a-time variations (every constructor alternative, every '
-        'Maybe/Either side and flag, leaf menus {0, 1, max, msb-set, non-minimal and maximal var-ints, extra-currency dictionaries, dictionary '
-        'shapes}) generated and encoded by TLC from the transcribed schema; distinct = distinct (type, encoding)')
+RULE = ('for every covered block.tlb type: the zero base value and a rich base value (all leaves non-zero, all optional parts present), '
+        'one-factor-at-a-time variations around both (every constructor alternative, every Maybe/Either side and flag, leaf menus {0, 1, max, '
+        'msb-set, non-minimal and maximal var-ints, extra-currency dictionaries, dictionary shapes}), every present/absent combination of the '
+        'optional parts, (thorough) every pair of fields varied together - generated and encoded by TLC from the transcribed schema, decoded '
+        'back by the specification (DecEnc) and parsed by the library; the bundled main-net block decoded by the specification; distinct = '
+        'distinct (type, encoding)')
 ASSUMPTIONS = ['TlbSchema.tla is a hand transcription of block.tlb (tags prefix-free checked by TLC; values satisfy the schema constraints)',
                'attribute paths: block.tlb field names with the aliases listed in tlbkit.ALIAS; representation (bytes / hex string / int for '
                'bit fields, {} / None for an empty dictionary) is normalised, content is compared by TLC',
@@ -38,16 +41,17 @@ CLS = {
 }
 
 
-def tlb_cfg(types, emit='TRUE'):
-    return ('INIT Init\nNEXT Next\nCONSTANTS Types = {%s}\n Emit = %s\nINVARIANT Export\nINVARIANT Count\nINVARIANT DecEnc\nCHECK_DEADLOCK FALSE\n'
-            % (', '.join('"%s"' % t for t in types), emit))
+def tlb_cfg(types, emit='TRUE', pairs='FALSE'):
+    return ('INIT Init\nNEXT Next\nCONSTANTS Types = {%s}\n Emit = %s\n Pairs = %s\nINVARIANT Export\nINVARIANT Count\nINVARIANT DecEnc\nCHECK_DEADLOCK FALSE\n'
+            % (', '.join('"%s"' % t for t in types), emit, pairs))
 
 
 def model_checks(tier):
     names = sorted(set(CLS) - {'Block'})        # Block is read in the decode direction only (its state update is not transcribed)
-    k = 8
+    k = 8 if tier == 'quick' else 16
     chunks = [names[i::k] for i in range(k)]
-    return [dict(name='tlb_g%d' % i, module='MC_Tlb.tla', gen=True, workers=2, timeout=1500, heap='4g', cfg=tlb_cfg(ch))
+    return [dict(name='tlb_g%d' % i, module='MC_Tlb.tla', gen=True, workers=2 if tier == 'quick' else 1, timeout=3000, heap='4g',
+                 cfg=tlb_cfg(ch, pairs='FALSE' if tier == 'quick' else 'TRUE'))
             for i, ch in enumerate(chunks)]
 
 
